@@ -193,7 +193,7 @@ class Chaser:
         args = [self.origin(a, depth) for a in t["args"]]
         if name in LOOK_THROUGH and args:
             return ("via", name, args[0], bb)
-        if name in ("std::vec::Vec::len", "std::slice::len", "std::string::String::len", "std::collections::VecDeque::len"):
+        if name in ("std::vec::Vec::len", "std::slice::len", "std::string::String::len", "std::collections::VecDeque::len", "std::str::len"):
             return ("len", args[0]) if args else ("unknown", "len")
         return ("call", name, args, bb)
 
